@@ -265,11 +265,12 @@ type c18Replay struct {
 }
 
 func c18Opts(tier string) stdOpts {
-	o := stdOpts{IMBound: 1, SeqL: 2, EntrySeqL: 1, EIPs: true, Forks: []world.Fork{world.Frontier, world.Byzantium, world.Berlin, world.Shanghai}, Gas: 200000, MinShape: true, SstoreSeq: true, Scn: true, ScnGas: 3_000_000}
+	o := stdOpts{IMBound: 1, SeqL: 2, EntrySeqL: 1, EIPs: true, Forks: []world.Fork{world.Frontier, world.Byzantium, world.Berlin, world.Shanghai}, Gas: 200000, MinShape: true, SstoreSeq: true, Scn: true, ScnLite: true, ScnGas: 3_000_000}
 	if tier == "thorough" {
 		o.Forks = world.StandardForks()
 		o.IMBound = 2
 		o.SeqL = 3
+		o.ScnLite = false
 	}
 	return o
 }
